@@ -1952,6 +1952,9 @@ def _generate_header_guard(file_path):
     no_punctuation_path = re.sub(r"[^A-Za-z0-9_]", "_", uppercased_path)
     suffixed_path = no_punctuation_path + "_"
     no_double_underscore_path = re.sub(r"__+", "_", suffixed_path)
+    if no_double_underscore_path[0].isdigit():
+        # A macro name must be an identifier, and so cannot start with a digit.
+        return "EMBOSS_" + no_double_underscore_path
     return no_double_underscore_path
 
 
